@@ -67,22 +67,56 @@ func latestLog(rs ref.Store, name string) (*ref.Reflog, error) {
 
 func descends(anc []uint64, newN, oldN int) bool { return anc[newN]&(1<<uint(oldN)) != 0 }
 
+// one ref of a fetch / push operation
+type c10ref struct {
+	rel   c10rel
+	kind  int  // 0 head->remote-tracking (fetch) / head->head (push); 1 tag; 2 custom ref; 3 head->head
+	force bool // '+' on its refspec
+	name  string
+}
+
+func (r *c10ref) srcDst(op string) (string, string) {
+	switch r.kind {
+	case 1:
+		return "refs/tags/" + r.name, "refs/tags/" + r.name
+	case 2:
+		return "refs/custom/" + r.name, "refs/custom/" + r.name
+	case 3:
+		return "refs/heads/" + r.name, "refs/heads/" + r.name
+	}
+	if op == "push" {
+		return "refs/heads/" + r.name, "refs/heads/" + r.name
+	}
+	return "refs/heads/" + r.name, "refs/remotes/origin/" + r.name
+}
+
 func c10FetchPush(c *mc.Ctx) {
 	op := []string{"fetch", "push"}[c.Choose(2)]
-	rel := c10rels[c.Choose(len(c10rels))]
-	kind := c.Choose(4) // 0 head->remote-tracking (fetch) / head->head (push); 1 tag; 2 custom ref; 3 head->head
-	force := c.Choose(3) // 0 none, 1 '+' on the refspec, 2 --force
+	// the first ref (sorts first) is enumerated completely; the second one (sorts last) comes from a
+	// short list that includes refused updates, so that one ref's force or rejection can leak to the other
+	r1 := &c10ref{rel: c10rels[c.Choose(len(c10rels))], kind: c.Choose(4), force: c.Choose(2) == 1, name: "a1"}
+	second := []c10ref{
+		{rel: c10rel{"new-ref", -1, 1}, kind: 0},
+		{rel: c10rel{"diverged", 1, 2}, kind: 0},
+		{rel: c10rel{"diverged", 1, 2}, kind: 0, force: true},
+		{rel: c10rel{"behind", 1, 0}, kind: 1},
+		{rel: c10rel{"ahead", 0, 1}, kind: 3},
+	}
+	r2 := second[c.Choose(len(second))]
+	r2.name = "z2"
+	globalForce := c.ChooseDev(2) == 1
 	order := c.ChooseDev(3)
 	c.Shard()
 	pool := c12Pool()
-	desc := fmt.Sprintf("%s relation=%s(old=node %d,new=node %d) refkind=%d force=%d timeorder=%d", op, rel.name, rel.old, rel.new, kind, force, order)
+	refs := []*c10ref{r1, &r2}
+	desc := fmt.Sprintf("%s; ref %s: relation=%s(old=node %d,new=node %d) kind=%d '+'=%v; ref %s: relation=%s(old=node %d,new=node %d) kind=%d '+'=%v; --force=%v timeorder=%d",
+		op, r1.name, r1.rel.name, r1.rel.old, r1.rel.new, r1.kind, r1.force, r2.name, r2.rel.name, r2.rel.old, r2.rel.new, r2.kind, r2.force, globalForce, order)
 	c.Logf("%s", desc)
 	repo, err := newCLIRepo()
 	if err != nil {
 		panic("mc: cannot create CLI repository: " + err.Error())
 	}
 	defer repo.remove()
-	// remote side: in-memory stores behind the reference server
 	sdb := stores.NewMemStore()
 	srs := stores.NewMapRefStore()
 	for _, k := range pool[2].keys {
@@ -97,52 +131,38 @@ func c10FetchPush(c *mc.Ctx) {
 	if err != nil {
 		panic(err)
 	}
-	// local side: the same universe written into the on-disk repository
 	db, rs, closeFn, err := repo.open()
 	if err != nil {
 		panic(err)
 	}
 	copyTableTo(db, pool[2])
-	lsums, err := buildCommits(db, c10graph, times, tables)
-	if err != nil {
+	if _, err := buildCommits(db, c10graph, times, tables); err != nil {
 		panic(err)
 	}
-	_ = lsums
-	var src, dst, okSrc, okDst string
-	switch kind {
-	case 0:
-		src, dst = "refs/heads/x", "refs/remotes/origin/x"
-		if op == "push" {
-			dst = "refs/heads/x"
-		}
-	case 1:
-		src, dst = "refs/tags/t", "refs/tags/t"
-	case 2:
-		src, dst = "refs/custom/y", "refs/custom/y"
-	default:
-		src, dst = "refs/heads/x", "refs/heads/x"
-	}
-	okSrc, okDst = "refs/heads/ok", "refs/remotes/origin/ok"
-	if op == "push" {
-		okDst = "refs/heads/ok"
-	}
 	trim := func(s string) string { return strings.TrimPrefix(s, "refs/") }
-	// the side that offers the new value and the side whose ref is updated
-	var updated ref.Store
-	if op == "fetch" {
-		srs.Set(trim(src), ssums[rel.new])
-		srs.Set(trim(okSrc), ssums[1])
-		if rel.old >= 0 {
-			ref.SaveRef(rs, trim(dst), ssums[rel.old], "t", "t@t", "setup", "setup", nil)
+	var args []string
+	args = append(args, op, "origin")
+	for _, r := range refs {
+		src, dst := r.srcDst(op)
+		if op == "fetch" {
+			srs.Set(trim(src), ssums[r.rel.new])
+			if r.rel.old >= 0 {
+				ref.SaveRef(rs, trim(dst), ssums[r.rel.old], "t", "t@t", "setup", "setup", nil)
+			}
+		} else {
+			ref.SaveRef(rs, trim(src), ssums[r.rel.new], "t", "t@t", "setup", "setup", nil)
+			if r.rel.old >= 0 {
+				srs.Set(trim(dst), ssums[r.rel.old])
+			}
 		}
-		updated = nil // local, opened after the command
-	} else {
-		ref.SaveRef(rs, trim(src), ssums[rel.new], "t", "t@t", "setup", "setup", nil)
-		ref.SaveRef(rs, trim(okSrc), ssums[1], "t", "t@t", "setup", "setup", nil)
-		if rel.old >= 0 {
-			srs.Set(trim(dst), ssums[rel.old])
+		spec := src + ":" + dst
+		if r.force {
+			spec = "+" + spec
 		}
-		updated = srs
+		args = append(args, spec)
+	}
+	if globalForce {
+		args = append(args, "--force")
 	}
 	closeFn()
 	srv := refsrv.New(sdb, srs)
@@ -152,15 +172,6 @@ func c10FetchPush(c *mc.Ctx) {
 		c.Fail("cli-error", "remote add failed: %v; %s", err, desc)
 		return
 	}
-	spec := trim(src) + ":" + trim(dst)
-	spec = "refs/" + spec[:strings.Index(spec, ":")] + ":refs/" + trim(dst)
-	if force == 1 {
-		spec = "+" + spec
-	}
-	args := []string{op, "origin", spec, okSrc + ":" + okDst}
-	if force == 2 {
-		args = append(args, "--force")
-	}
 	var out string
 	var cerr error
 	if p, st := mc.Try(func() { out, cerr = repo.run(nil, args...) }); p != nil {
@@ -168,6 +179,7 @@ func c10FetchPush(c *mc.Ctx) {
 		return
 	}
 	c.Logf("output: %s err: %v", strings.ReplaceAll(out, "\n", " | "), cerr)
+	var updated ref.Store = srs
 	var ldb objects.Store
 	if op == "fetch" {
 		var lrs ref.Store
@@ -180,60 +192,60 @@ func c10FetchPush(c *mc.Ctx) {
 		updated = lrs
 	}
 	anc := c10graph.Anc()
-	got, gerr := updated.Get(trim(dst))
-	gotNode := -1
-	if gerr == nil {
-		gotNode = indexOfSum(ssums, got)
+	anyRefused := false
+	for _, r := range refs {
+		_, dst := r.srcDst(op)
+		got, gerr := updated.Get(trim(dst))
+		gotNode := -1
+		if gerr == nil {
+			gotNode = indexOfSum(ssums, got)
+		}
+		forced := r.force || globalForce
+		isTag := r.kind == 1
+		legal := r.rel.old < 0 || r.rel.old == r.rel.new || (!isTag && descends(anc, r.rel.new, r.rel.old))
+		if legal || forced {
+			if gotNode != r.rel.new {
+				c.Fail("legal-update-lost", "the update of %s from node %d to node %d is %s but the ref now points to node %d (output %q, err %v); %s", dst, r.rel.old, r.rel.new,
+					map[bool]string{true: "forced", false: "legal without force"}[forced && !legal], gotNode, out, cerr, desc)
+				return
+			}
+		} else {
+			anyRefused = true
+			if gotNode != r.rel.old {
+				c.Fail("moved-backwards", "unforced %s moved %s from node %d to node %d, which does not descend from it (tag=%v); the force of another ref or nothing at all allowed it; %s", op, dst, r.rel.old, gotNode, isTag, desc)
+				return
+			}
+		}
+		// reflog of every changed local ref carries the true old and new values
+		if op == "fetch" && gotNode != r.rel.old {
+			rl, err := latestLog(updated, trim(dst))
+			if err != nil {
+				c.Fail("reflog", "ref %s changed but has no reflog entry (%v); %s", dst, err, desc)
+				return
+			}
+			var wantOld []byte
+			if r.rel.old >= 0 {
+				wantOld = ssums[r.rel.old]
+			}
+			if !bytes.Equal(rl.NewOID, ssums[r.rel.new]) || !(bytes.Equal(rl.OldOID, wantOld) || (wantOld == nil && len(rl.OldOID) == 0)) {
+				c.Fail("reflog", "newest reflog entry of %s records old=%x new=%x, true values old=%x new=%x; %s", dst, rl.OldOID, rl.NewOID, wantOld, ssums[r.rel.new], desc)
+				return
+			}
+		}
 	}
-	forced := force != 0
-	isTag := kind == 1
-	legal := rel.old < 0 || rel.old == rel.new || (!isTag && descends(anc, rel.new, rel.old))
-	switch {
-	case legal || forced:
-		if gotNode != rel.new {
-			c.Fail("legal-update-lost", "the update of %s from node %d to node %d is %s but the ref now points to node %d (output %q, err %v); %s", dst, rel.old, rel.new, map[bool]string{true: "forced", false: "a fast-forward"}[forced && !legal], gotNode, out, cerr, desc)
-			return
-		}
-	default:
-		if gotNode != rel.old {
-			c.Fail("moved-backwards", "unforced %s moved %s from node %d to node %d, which does not descend from it (tag=%v); %s", op, dst, rel.old, gotNode, isTag, desc)
-			return
-		}
-		if cerr == nil && !strings.Contains(out, "rejected") {
-			c.Fail("rejection-not-reported", "the update of %s was refused but the command neither failed nor printed a rejection (output %q); %s", dst, out, desc)
-			return
-		}
-	}
-	// the legal companion ref is updated regardless of the rejection
-	okGot, err := updated.Get(trim(okDst))
-	if err != nil || !bytes.Equal(okGot, ssums[1]) {
-		c.Fail("companion-ref-blocked", "the always-legal ref %s was not updated (err %v) in an operation where another ref was %s; output %q; %s", okDst, err, map[bool]string{true: "accepted", false: "rejected"}[legal || forced], out, desc)
+	if anyRefused && cerr == nil && !strings.Contains(out, "rejected") {
+		c.Fail("rejection-not-reported", "an update was refused but the command neither failed nor printed a rejection (output %q); %s", out, desc)
 		return
 	}
-	// reflog of every changed local ref carries the true old and new values
-	if op == "fetch" && gotNode != rel.old {
-		rl, err := latestLog(updated, trim(dst))
-		if err != nil {
-			c.Fail("reflog", "ref %s changed but has no reflog entry (%v); %s", dst, err, desc)
-			return
-		}
-		var wantOld []byte
-		if rel.old >= 0 {
-			wantOld = ssums[rel.old]
-		}
-		if !bytes.Equal(rl.NewOID, ssums[rel.new]) || !(bytes.Equal(rl.OldOID, wantOld) || (wantOld == nil && len(rl.OldOID) == 0)) {
-			c.Fail("reflog", "newest reflog entry of %s records old=%x new=%x, true values old=%x new=%x; %s", dst, rl.OldOID, rl.NewOID, wantOld, ssums[rel.new], desc)
-			return
-		}
-		// history of the moved ref is complete locally
+	if op == "fetch" {
 		if msg := model.CheckRepoRefs(ldb, updated.(model.RefLister)); msg != "" {
 			c.Fail("ref-dangling", "%s; %s", msg, desc)
 			return
 		}
 	}
-	c.Outcome(fmt.Sprintf("%s-%s-legal=%v-forced=%v", op, rel.name, legal, forced))
+	c.Outcome(fmt.Sprintf("%s-%s-%s-refused=%v", op, r1.rel.name, r2.rel.name, anyRefused))
 	c.Nontrivial(desc)
-	if c.WantSample() && !legal {
+	if c.WantSample() && anyRefused {
 		c.Sample(map[string]any{"case": desc, "output": out})
 	}
 }
@@ -383,9 +395,9 @@ func init() {
 	register(&mc.Check{
 		ID:    "C10",
 		Level: "exploration",
-		Rule: "fetch and push through the real command tree against the reference server: history relation between the ref's old value and the offered value in {new ref, equal, ahead, far ahead, ahead through a merge that also reaches the grandparent directly, behind, diverged, unrelated} x ref kind {head->remote-tracking / head->head, tag, custom ref, head->head} x force {none, '+' refspec, --force} x (deviation) commit-time order {topological, reversed, equal}, " +
-			"each operation also carrying a second, always-legal ref. merge and pull: relation in {equal, ahead, far ahead, ahead-with-shortcut, behind, diverged} x {default, --no-ff, --ff-only} x {wrgl merge, wrgl pull}. All 252+30 combinations are run on an on-disk repository. " +
-			"Oracle (ref-transition model): an unforced update lands only if the new value descends from the old one and never replaces an existing tag; a refused update leaves the ref unchanged and is reported; the companion ref is updated regardless; a fast-forward merge moves the branch exactly to the other commit; --ff-only refuses diverged histories; " +
+		Rule: "fetch and push through the real command tree against the reference server, each operation carrying TWO refs: the first (sorted first) with every history relation between its old and offered value in {new ref, equal, ahead, far ahead, ahead through a merge that also reaches the grandparent directly, behind, diverged, unrelated} x ref kind {head->remote-tracking / head->head, tag, custom ref, head->head} x '+' on its refspec; " +
+			"the second (sorted last) from {legal new ref, unforced diverged, '+' diverged, unforced moved tag, fast-forward}; (deviations) global --force, commit-time order {topological, reversed, equal}. merge and pull: relation in {equal, ahead, far ahead, ahead-with-shortcut, behind, diverged} x {default, --no-ff, --ff-only} x {wrgl merge, wrgl pull}. All 640+36 combinations are run on an on-disk repository. " +
+			"Oracle (ref-transition model): an unforced update lands only if the new value descends from the old one and never replaces an existing tag; a refused update leaves the ref unchanged and is reported; every ref is judged on its own relation and its own force flag (one ref's '+' or rejection never changes another ref's outcome); a fast-forward merge moves the branch exactly to the other commit; --ff-only refuses diverged histories; " +
 			"every ref that changed has a newest reflog entry with the true old and new values and resolves to a stored commit. non-trivial / distinct = every combination",
 		Assumptions: []string{"for push the reference server applies exactly the updates it is asked to apply, so the check is on what the client requests and reports", "history relations are realised on a fixed 6-commit universe"},
 		Harnesses: []*mc.Harness{
